@@ -476,6 +476,7 @@ class Ctx:
         self.traces_validated = 0
         self.problems: list[dict] = []   # {'kind': 'property'|'correspondence'|'proof', ...}
         self.known_hits: dict[str, dict] = {}
+        self.known_messages: dict[str, list[str]] = {}
         self.notes: list[str] = []
         self.obligations = 0
         self.discharged = 0
@@ -491,9 +492,13 @@ class Ctx:
     def problem(self, kind: str, family: str, case: dict | None, message: str, descr: dict | None = None,
                 expected=None, got=None):
         d = descr if descr is not None else (case or {})
+        # a finding is identified by the failing input (keys of descr) AND by what fails there (matcher key 'message', a regex on the
+        # oracle's text): a different violation on the same kind of input is still reported
+        d = dict(d, message=message, problem_kind=kind) if isinstance(d, dict) else d
         kf = match_finding(self.findings, self.prop, family, d) if case is not None or descr is not None else None
         if kf is not None:
             self.known_hits.setdefault(kf['id'], kf)
+            self.known_messages.setdefault(kf['id'], []).append(f'[{kind}] {message}'[:300])
             return
         self.problems.append({'kind': kind, 'family': family, 'case': jsonable(case), 'message': message,
                               'expected': jsonable(expected), 'got': jsonable(got)})
